@@ -56,7 +56,8 @@ Record inv (st : xstate) : Prop := mkinv {
   i_excl : (b2n (x_parse_token st) + nparse st + length (filter (jm (x_unords st)) (all_jobs st)) <= 1)%nat;
   i_runm : Forall (fun j => jm (x_unords st) j = true -> x_head_offs st <= d_off (r_cur j)) (run_jobs (x_running st));
   i_done : x_parsing_done st = true -> nparse st = 0%nat /\ x_parse_token st = true;
-  i_noassert : x_bad_attach st = false
+  i_noassert : x_bad_attach st = false;
+  i_unodup : NoDup (map u_id (x_unords st))
 }.
 
 Inductive reach (cfg : xcfg) (s0 : xstate) : xstate -> Prop :=
